@@ -247,9 +247,11 @@ func tokens(line string, lowerCase bool) []string {
 // lists (ACAH/ACEH tokens byte-lower-cased: header names are case-insensitive); everything else
 // is the list of field lines as given. Any other Access-Control-* header is reported under its
 // own name so that "no Access-Control-* header at all" can be judged.
-func absResp(w *rec) map[string]any {
+func absResp(w *rec) map[string]any { return absRespH(w.status, w.final()) }
+
+func absRespH(status int, hdrs http.Header) map[string]any {
 	h := map[string]any{}
-	for k, v := range w.final() {
+	for k, v := range hdrs {
 		ab, ok := abbrev[k]
 		if !ok {
 			if strings.HasPrefix(k, "Access-Control-") {
@@ -274,7 +276,7 @@ func absResp(w *rec) map[string]any {
 			h[ab] = append([]string{}, v...)
 		}
 	}
-	st := w.status
+	st := status
 	if st == 0 {
 		st = 200
 	}
